@@ -1019,7 +1019,7 @@ func (cpu *CPU) Step() (int, bool) {
 	}
 
 	// instruction execution
-	cpu.StepInfo = StepInfo{ea, addr, mode}
+	cpu.StepInfo = StepInfo{ea & 0x00ffffff, addr, mode} // the address bus is 24 bits wide
 	cpu.instructions[opcode].proc()
 
 	// counter and PC update
